@@ -72,6 +72,27 @@ CLAIMED["C14"] = dict(
     text="Decides: no panic-capable construct (unwrap/expect, unreachable!/panic!, indexing/slicing, usize subtraction, known panicking library calls) reachable from a string entry point is left without a dominating local guard or a reviewed discharge whose prerequisites hold on the current tree; parse_and_validate[_extended] push a tree only after parser, preprocessing, the variable-support check for that tree and (extended) the context validation, and every string entry point evaluates only such trees on the validated graph; the listed error conditions are produced as Err values on their own paths. The 'error exactly when' half over all strings, and panics inside the libraries on validated arguments, are not decided.",
     note=TRUST + "Reviewed exceptions are listed with their reasons in tables/panic_discharge.json.", ref="5/C14")
 
+CLAIMED["C15"] = dict(
+    technique="static analysis: sibling comparison of the value-numbering terms of each sanitising entry point and its dirty sibling (whole-pipeline inlining); term equations for the three sanitize_* functions; name-only indexing rule",
+    text="Decides: every sanitising entry point returns exactly map(sanitize_colored_vertices(graph, .)) over the results of its dirty sibling run with the same arguments (one-to-one, in order, no raw result escapes, nothing else is done); each sanitize_* function is a transfer of the BDD from the graph's context into that graph's canonical context, wrapped with the same canonical context; the symbolic copy index depends on the variable name only and every network variable gets the same number of copies. Equality of the sets and independence of the number of spare variable sets are not decided (they rest on C03 and L7).",
+    note=TRUST, ref="5/C15")
+CLAIMED["C16"] = dict(
+    technique="static analysis: writer/reader table agreement (entry-name template vs. extension filter and suffix stripping, serialiser vs. parser, fixed entry names), label/index provenance in analyse_formulae, who-may-reorder rule",
+    text="Decides: results are written as `<label>.bdd` with write_as_string and read back from exactly the `.bdd` entries with the suffix stripped once, Bdd::from_string, the caller's context, keyed by the recovered label; model.aeon and formulae.txt are written once each after the results, formulae one per line in the given order; analyse_formulae archives result i under `formula-<i>` with i the enumerate counter of the evaluation loop over the trees in input order, nothing reorders the lists, and the archived formula list is the input list. The I/O round trip itself (zip, BDD text format) is assumed (L8).",
+    note=TRUST, ref="5/C16")
+CLAIMED["C17"] = dict(
+    technique="static analysis: stage-by-stage provenance comparison of analyse_formulae with the library pipeline; Boolean equivalence of the loader's keep-condition; table agreement of print options (clap list, match in main, README); unwrap-on-fallible-result rule",
+    text="Decides: analyse_formulae selects the parser flavour by the presence of the context archive, validates every tree, sizes the graph by the maximum number of quantifier variables, builds one context from all trees, validates every tree against the sets loaded from the archive with the graph's symbolic context and installs the validated maps, and evaluates every tree in file order on that graph with its steady states; load_formulae keeps trim(line) iff it is non-empty and not a comment, in order; the four print options agree across clap, main and README; no fallible I/O / parse / validation result is unwrapped without an is_err test (reviewed exceptions listed); the printed and archived values are the set eval_node returned. Equality of the printed numbers with the library's is not decided.",
+    note=TRUST, ref="5/C17")
+CLAIMED["C19"] = dict(
+    technique="static analysis: typestate ('flattened') argument on the value-numbering terms of the converter: variant coverage of flatten_fn_update, no raw argument embedded by explode_function, Shannon-expansion shape, injective naming templates, variable coverage",
+    text="Decides: flatten_fn_update has exactly one arm per FnUpdate variant rebuilding from flattened children; explode_function embeds its first argument only through flatten_fn_update (each argument flattened exactly once, callers pass raw arguments), builds (r => E1) & (!r => E0) over the remaining arguments with the prefix extended by exactly '1' / '0', and its base case is the zero-arity parameter named by the accumulated prefix; prefixes are `<name>_`; every variable with a regulator is converted, the implicit case ranges over all regulators as variables, variables without regulators are skipped. Equality of the function families as truth tables is not decided.",
+    note=TRUST + "FnUpdate's connective constructors and to_bnet are assumed to do what their names say.", ref="5/C19")
+CLAIMED["C20"] = dict(
+    technique="static analysis: taint-style who-may-call rule over the call graph from eval_node for colour-mixing primitives and BDD quantification; classification of colour-global predicates; equation rules (C01 shapes) showing every operator is built from pointwise primitives",
+    text="Decides the premise of the compositional argument: in everything reachable from eval_node no colour / vertex projection or selection is used, BDD quantification ranges only over state / auxiliary variables (never parameters), colour-global predicates occur only as fixed-point termination tests, the saturation guard and the empty-universe shortcut, and every operator equals its defining equation over pointwise primitives. Hence, given that the library primitives are pointwise in colour (L2, L5 - assumed), the result is pointwise in colour.",
+    note=TRUST, ref="5/C20")
+
 NOT_APPLICABLE = {
     "C09": "value-level property of a character-level rewriting (canonical strings coincide exactly for alpha-equivalent inputs, injectivity, idempotence, occurrence lower bounds); the only structural necessary condition (duplicates marked only for <= 1 variable) is a clause of C04 and is checked there (DESIGN.md section 9)",
 }
